@@ -722,8 +722,10 @@ impl<'a> UdpNhcRepr {
                 checksum::data(packet.payload()),
             ]);
 
+            // A computed checksum of zero is carried as all-ones (see `emit`).
             if let Some(checksum) = packet.checksum()
                 && chk_sum != checksum
+                && !(chk_sum == 0 && checksum == 0xffff)
             {
                 return Err(Error);
             }
